@@ -929,7 +929,7 @@ class Summaries:
 
     # ------------------------------------------------------------------ iterators
     def s_adaptor(self, ctx, st):
-        """core::iter::traits::iterator::Iterator::map | core::iter::traits::iterator::Iterator::take | core::iter::traits::iterator::Iterator::take_while | core::iter::traits::iterator::Iterator::filter | core::iter::traits::iterator::Iterator::skip | core::iter::traits::iterator::Iterator::by_ref | core::iter::sources::once::once | core::iter::traits::iterator::Iterator::enumerate | core::iter::traits::iterator::Iterator::zip | core::iter::traits::iterator::Iterator::copied | core::iter::traits::iterator::Iterator::cloned | core::iter::traits::iterator::Iterator::flatten | core::iter::traits::iterator::Iterator::rev | core::iter::traits::iterator::Iterator::chain | core::iter::traits::iterator::Iterator::step_by | core::iter::traits::iterator::Iterator::skip_while | core::iter::traits::iterator::Iterator::peekable | core::iter::traits::iterator::Iterator::fuse | core::iter::traits::iterator::Iterator::inspect"""
+        """core::iter::traits::iterator::Iterator::map | core::iter::traits::iterator::Iterator::take | core::iter::traits::iterator::Iterator::take_while | core::iter::traits::iterator::Iterator::filter | core::iter::traits::iterator::Iterator::skip | core::iter::traits::iterator::Iterator::by_ref | core::iter::sources::once::once | core::iter::sources::repeat::repeat | core::iter::sources::repeat_n::repeat_n | core::iter::traits::iterator::Iterator::enumerate | core::iter::traits::iterator::Iterator::zip | core::iter::traits::iterator::Iterator::copied | core::iter::traits::iterator::Iterator::cloned | core::iter::traits::iterator::Iterator::flatten | core::iter::traits::iterator::Iterator::rev | core::iter::traits::iterator::Iterator::chain | core::iter::traits::iterator::Iterator::step_by | core::iter::traits::iterator::Iterator::skip_while | core::iter::traits::iterator::Iterator::peekable | core::iter::traits::iterator::Iterator::fuse | core::iter::traits::iterator::Iterator::inspect"""
         if ctx.r["kind"] == "body":
             return None
         name = ctx.callee["name"]
